@@ -60,21 +60,17 @@ example : truthy (.bool true) = true := rfl
 /-! ### no password -/
 
 /-- `cfg[section][k] = v` changes the option `optionxform(k)` only -/
-theorem set_other_untouched (c c' : Ini) (sect : Str) (k : Name) (v : Str) (h : c.set sect k v = .ok c')
+theorem set_other_untouched (c : Ini) (sect : Str) (k : Name) (v : Str)
     (sect' : Str) (k' : Name) (hk : k' ≠ lower k) :
-    c'.raw sect' k' = c.raw sect' k' := by
-  unfold Ini.set at h
-  split at h
-  · cases h
-  · split at h
-    · cases h
-      simp [Ini.raw, Ini.sect, lookup_mapSet, hk]
-    · cases h
-      simp only [Ini.raw, Ini.sect, lookup_mapSet]
-      by_cases hs : sect' = sect
-      · subst hs
-        simp [lookup_mapSet, hk]
-      · simp [hs]
+    (c.set sect k v).raw sect' k' = c.raw sect' k' := by
+  unfold Ini.set
+  split
+  · simp [Ini.raw, Ini.sect, lookup_mapSet, hk]
+  · simp only [Ini.raw, Ini.sect, lookup_mapSet]
+    by_cases hs : sect' = sect
+    · subst hs
+      simp [lookup_mapSet, hk]
+    · simp [hs]
 
 /-- **C18_no_password** (table half).  The only options `mk_server_cfg` assigns are the CONFIGURABLE ones (and the
     DEFAULT-section `clientuid`); `password` is not among them and is not `clientuid`, so by `set_other_untouched`
@@ -112,10 +108,11 @@ def nsWrite (extra : Map) : Map :=
   [("request".toList, .str "stmt".toList), ("verbose".toList, .int 0), ("server".toList, .str "srv1".toList),
    ("write".toList, .bool true)] ++ extra
 
-/-- witness (i): a URL containing `%` — `cfg["url"] = …` raises in `BasicInterpolation.before_set` -/
-theorem C18_persist_percent_false :
+/-- repaired (`fix: ofxget stores and reads configuration values containing '%' verbatim`): the former witness (i),
+    a URL containing `%`, now persists -/
+theorem C18_persist_percent_fixed :
     persistHolds Generated.ofxgetTables (fun _ => none)
-      (nsWrite [("url".toList, .str "https://h/ofx?a=%41".toList)]) [] [] "U".toList "url".toList = false := by
+      (nsWrite [("url".toList, .str "https://h/ofx?a=%41".toList)]) [] [] "U".toList "url".toList = true := by
   decide +kernel
 
 /-- witness (ii): an account number containing `,` reads back as two accounts -/
@@ -125,112 +122,65 @@ theorem C18_persist_list_false :
       [] [] "U".toList "checking".toList = false := by
   decide +kernel
 
-/-- witness (iii): `--version 203` (the library default) while the file holds 102: not saved, 102 is back -/
-theorem C18_persist_default_false :
+/-- repaired (`fix: ofxget --write drops a stored value when the command line sets the option back to its default`):
+    the former witness (iii), `--version 203` while the file holds 102, now persists -/
+theorem C18_persist_default_fixed :
     persistHolds Generated.ofxgetTables (fun _ => none)
       (nsWrite [("url".toList, .str "https://h/".toList), ("version".toList, .int 203)])
-      [] [("srv1".toList, [("version".toList, "102".toList)])] "U".toList "version".toList = false := by
+      [] [("srv1".toList, [("version".toList, "102".toList)])] "U".toList "version".toList = true := by
+  decide +kernel
+
+/-- witness (iii'): the same value held in the DEFAULT section of ofxget.cfg is not cleared -/
+theorem C18_persist_default_section_false :
+    persistHolds Generated.ofxgetTables (fun _ => none)
+      (nsWrite [("url".toList, .str "https://h/".toList), ("version".toList, .int 203)])
+      [] [("DEFAULT".toList, [("clientuid".toList, "G".toList), ("version".toList, "102".toList)]),
+          ("srv1".toList, [("user".toList, "bob".toList)])] "U".toList "version".toList = false := by
+  decide +kernel
+
+/-- witness (iv): an empty command-line value overrides for this run but is never saved -/
+theorem C18_persist_null_false :
+    persistHolds Generated.ofxgetTables (fun _ => none)
+      (nsWrite [("url".toList, .str "https://h/".toList), ("user".toList, .str [])])
+      [] [("srv1".toList, [("user".toList, "bob".toList)])] "U".toList "user".toList = false := by
   decide +kernel
 
 theorem C18_persist_full_false : ¬ C18_persist_full := by
   intro h
-  have := h (fun _ => none) (nsWrite [("url".toList, .str "https://h/ofx?a=%41".toList)]) [] [] "U".toList
-    "url".toList (by decide +kernel)
-  rw [C18_persist_percent_false] at this
+  have := h (fun _ => none)
+    (nsWrite [("url".toList, .str "https://h/".toList), ("checking".toList, .list ["a,b".toList])]) [] [] "U".toList
+    "checking".toList (by decide +kernel)
+  rw [C18_persist_list_false] at this
   cases this
 
 /-- the guard under which one saved value reads back as itself: what `arg2config` writes for `v`, passed through
     the INI reader (`strip`) and the typed getter, is `v` again -/
 def readsBack (T : Tables) (ty : CfgTy) (v : CfgVal) : Bool :=
   match arg2config ty v with
-  | .ok s => validSet s && (match interpolate T (fun _ => none) (strip s) with
-      | .ok s' => (match typedOfStr T ty s' with | .ok v' => v' == v | .error _ => false)
-      | .error _ => false)
+  | .ok s => (match typedOfStr T ty (strip s) with | .ok v' => v' == v | .error _ => false)
   | .error _ => false
 
-/-- strings without `%` and without edge blanks read back -/
-def cleanStr (s : Str) : Bool := !s.contains '%' && strip s == s
-
-theorem replaceGo_no_occurrence (old new : Str) (c0 : Char) (hold : old = c0 :: c0 :: []) (s : Str)
-    (hs : ∀ x ∈ s, x ≠ c0) : replaceGo old new 0 s = s := by
-  induction s with
-  | nil => rfl
-  | cons c cs ih =>
-    have hc : c ≠ c0 := hs c (by simp)
-    have hp : old.isPrefixOf (c :: cs) = false := by
-      subst hold
-      have hb : (c0 == c) = false := by simpa using fun e : c0 = c => hc e.symm
-      simp [List.isPrefixOf, hb]
-    simp only [replaceGo, hp, Bool.false_eq_true, if_false]
-    rw [ih (fun x hx => hs x (by simp [hx]))]
-
-theorem removeKeyRefs_no_percent (f : Nat) (s : Str) (hs : ∀ x ∈ s, x ≠ '%') : removeKeyRefs f s = s := by
-  induction f generalizing s with
-  | zero => rfl
-  | succ f ih =>
-    cases s with
-    | nil => rfl
-    | cons c cs =>
-      have hc : c ≠ '%' := hs c (by simp)
-      simp only [removeKeyRefs, hc, if_false]
-      rw [ih cs (fun x hx => hs x (by simp [hx]))]
-
-theorem interpScan_no_percent (look : Name → Option Str) (recur : Str → PyM Str) (s : Str)
-    (hs : ∀ x ∈ s, x ≠ '%') : ∀ f, s.length < f → interpScan look recur f s = .ok s := by
-  induction s with
-  | nil => intro f hf; cases f with | zero => simp at hf | succ f => rfl
-  | cons c cs ih =>
-    intro f hf
-    cases f with
-    | zero => simp at hf
-    | succ f =>
-      have hc : c ≠ '%' := hs c (by simp)
-      simp only [interpScan, hc, if_false]
-      rw [ih (fun x hx => hs x (by simp [hx])) f (by simpa using hf)]
-      rfl
-
-/-- **C18_persist_partial** (value level, string options).  A string value with no `%` and no edge blanks is
-    accepted by `cfg[opt] = value`, and the next run reads exactly it back — for every table with a positive
-    interpolation depth limit. -/
-theorem C18_persist_partial_str (T : Tables) (hd : 0 < T.maxInterpDepth) (s : Str) (hclean : cleanStr s = true) :
+/-- **C18_persist_partial** (value level, string options).  Since `fix: … '%' verbatim` the only thing a string
+    value can lose is edge blanks (the INI reader strips them): a string equal to its `strip` reads back. -/
+theorem C18_persist_partial_str (T : Tables) (s : Str) (hclean : strip s = s) :
     readsBack T .str (.str s) = true := by
-  simp only [cleanStr, Bool.and_eq_true, Bool.not_eq_true', beq_iff_eq] at hclean
-  obtain ⟨hp, hstrip⟩ := hclean
-  have hno : ∀ x ∈ s, x ≠ '%' := by
-    intro x hx hx'
-    subst hx'
-    have : s.contains '%' = true := by simpa using hx
-    rw [this] at hp
-    cases hp
-  have hv : validSet s = true := by
-    simp only [validSet, replace]
-    rw [replaceGo_no_occurrence "%%".toList [] '%' rfl s hno, removeKeyRefs_no_percent _ s hno]
-    simpa using fun hmem => hno '%' hmem rfl
-  have hi : interpolate T (fun _ => none) s = .ok s := by
-    unfold interpolate
-    obtain ⟨d, hd'⟩ : ∃ d, T.maxInterpDepth = d + 1 := ⟨T.maxInterpDepth - 1, by omega⟩
-    rw [hd']
-    simp only [interpDepth]
-    exact interpScan_no_percent _ _ s hno _ (by omega)
-  simp [readsBack, arg2config, hv, hstrip, hi, typedOfStr]
+  simp [readsBack, arg2config, typedOfStr, hclean]
 
-example : cleanStr "https://ofx.example.com/cgi?x=1&y=2".toList = true := by decide +kernel
+example : strip "https://ofx.example.com/cgi?x=%41&y=2".toList = "https://ofx.example.com/cgi?x=%41&y=2".toList := by
+  decide +kernel
 
 /-- **C18_persist_partial** (value level, boolean options): always -/
 theorem C18_persist_partial_bool (b : Bool) :
     readsBack Generated.ofxgetTables .bool (.bool b) = true := by
   cases b <;> decide +kernel
 
-/-- **C18_clientuid_stable.**  Once the DEFAULT section holds a CLIENTUID, the part of `mk_server_cfg` that creates
-    one leaves it alone: the `clientuid` of DEFAULT after clear-and-reload is the stored one, and no new id is
-    drawn (`uuid` is not used). -/
-theorem C18_clientuid_stable (mem : Ini) (disk : FileC) (u uuid : Str)
+/-- **C18_clientuid_stable** (one step).  Once the DEFAULT section holds a CLIENTUID, the reload at the start of
+    `mk_server_cfg` keeps it and draws no new id (`uuid` is not used). -/
+theorem C18_clientuid_kept (mem : Ini) (disk : FileC) (u uuid : Str)
     (h : (({ mem with sections := [] } : Ini).loadFile disk).defaults.lookup "clientuid".toList = some u) :
-    (if ((({ mem with sections := [] } : Ini).loadFile disk).defaults.lookup "clientuid".toList).isSome
-      then (pure (({ mem with sections := [] } : Ini).loadFile disk) : PyM Ini)
-      else (({ mem with sections := [] } : Ini).loadFile disk).set defaultSect "clientuid".toList uuid)
-      = .ok (({ mem with sections := [] } : Ini).loadFile disk) := by
+    reloadCfg mem disk uuid = ({ mem with sections := [] } : Ini).loadFile disk := by
+  unfold reloadCfg
   generalize "clientuid".toList = key at h ⊢
-  simp [h, pure, Except.pure]
+  simp [h]
 
 end Ofx.Ofxget
